@@ -15,6 +15,8 @@ import (
 	"crypto/sha256"
 	"encoding/hex"
 	"fmt"
+	pb "github.com/buchgr/bazel-remote/v2/genproto/build/bazel/remote/execution/v2"
+	"google.golang.org/protobuf/proto"
 	"io"
 	"log"
 	"os"
@@ -59,13 +61,13 @@ type vf8Hist struct {
 }
 
 type vf8Run struct {
-	hist   *vf8Hist
-	cc     Cache
-	c      *diskCache
-	dir    string
-	proxy  *vlib.FakeProxy
-	acked  map[string]int
-	images []vf8Image
+	hist     *vf8Hist
+	cc       Cache
+	c        *diskCache
+	dir      string
+	proxy    *vlib.FakeProxy
+	acked    map[string]int
+	images   []vf8Image
 	mayEvict map[string]bool
 }
 
@@ -149,8 +151,17 @@ func vf8Histories(mode string) []*vf8Hist {
 	Z := mkCAS(vlib.Zeros(2<<20 + 5))
 	C := mkCAS(vlib.Bytes("c08-C", 250, true))
 	ack := strings.Repeat("c8", 32)
-	K := &vf8Key{kind: cache.AC, hash: ack, values: [][]byte{vlib.Bytes("c08-v1", 60, false), vlib.Bytes("c08-v2", 90, false)}}
-	L := &vf8Key{kind: cache.AC, hash: strings.Repeat("d9", 32), values: [][]byte{vlib.Bytes("c08-large-ac", 100<<10, false)}}
+	// action-cache values are real serialised ActionResults (so that the validating read path,
+	// which parses them, can be asked too)
+	arOf := func(tag string, n int, exit int32) []byte {
+		b, err := proto.Marshal(&pb.ActionResult{ExitCode: exit, StdoutRaw: vlib.Bytes(tag, n, false)})
+		if err != nil {
+			panic(err)
+		}
+		return b
+	}
+	K := &vf8Key{kind: cache.AC, hash: ack, values: [][]byte{arOf("c08-v1", 60, 1), arOf("c08-v2", 90, 2)}}
+	L := &vf8Key{kind: cache.AC, hash: strings.Repeat("d9", 32), values: [][]byte{arOf("c08-large-ac", 100<<10, 3)}}
 	keyOf := func(k *vf8Key) string { return cache.LookupKey(k.kind, k.hash) }
 	ks := func(keys ...*vf8Key) map[string]*vf8Key {
 		m := map[string]*vf8Key{}
@@ -399,6 +410,23 @@ func vf8Check(rep *vlib.Report, h *vf8Hist, dir string, img vf8Image, modeBefore
 	for _, kk := range keys {
 		k := h.keys[kk]
 		ackIdx, acked := img.acked[kk]
+		// the validating read path of the servers (gRPC GetActionResult, HTTP GET /ac): at a crash
+		// state between two file-system steps it returns nothing or a completed upload
+		if k.kind == cache.AC && !torn {
+			ar, raw, verr := cc.GetValidatedActionResult(context.Background(), k.hash)
+			if verr == nil && ar != nil {
+				legal := false
+				for _, v := range k.values {
+					if bytes.Equal(v, raw) {
+						legal = true
+					}
+				}
+				if !legal {
+					rep.Violate(cls+" validated action-cache read serves a value that is no completed upload", fmt.Sprintf("%s: GetValidatedActionResult of %s returned a result of %d stored bytes", id, kk[:10], len(raw)), replay)
+					return
+				}
+			}
+		}
 		sizes := []int64{-1}
 		for _, v := range k.values {
 			sizes = append(sizes, int64(len(v)))
